@@ -442,7 +442,7 @@ func (g *Gen) between() {
 		case x == 1:
 			n = g.latest + int64(r.Range(1, 3))
 		case x == 2 && g.first > 1:
-			n = g.first - 1 // below first: no-op
+			n = int64(r.Intn(int(g.first))) // a stale request anywhere below the first version: no-op
 		default:
 			if g.latest > g.first {
 				n = g.first + int64(r.Intn(int(g.latest-g.first)))
